@@ -7,10 +7,21 @@ package peer
 
 //@ use streams
 //@ use net
+//@ use atomic
 
 // NP: number of pieces of the torrent as the peer sees it.
 //@ spec NP(peer *Peer) int
 //@   body int((peer.Pieces.Length() + int64(peer.Pieces.PieceSize()) - 1) / int64(peer.Pieces.PieceSize()))
+
+// PieceOK: the payload of a Piece message is, byte for byte, what the piece
+// store holds at (index, begin) in a piece that is complete and verified.
+//@ spec PieceOK(peer *Peer, index uint32, begin uint32, data []byte) bool
+//@   import "github.com/jech/storrent/tor/piece"
+//@   body (len(data) > 0 ==> piece.VerifiedAt(peer.Pieces, int64(index)*int64(peer.Pieces.PieceSize()) + int64(begin))) &&
+//@        (forall k int :: 0 <= k && k < len(data) ==> data[k] == piece.PByte(peer.Pieces, int64(index)*int64(peer.Pieces.PieceSize()) + int64(begin), k))
+// ReqOK: every upload request accepted from the peer is short (bounded reply buffer).
+//@ spec ReqOK(peer *Peer) bool
+//@   body forall k int :: 0 <= k && k < len(peer.requested) ==> peer.requested[k].Length <= 131072
 
 // write: the ONE place where messages are handed to the wire. Its
 // precondition is the conformance condition of C11 for the message kinds whose
@@ -24,8 +35,9 @@ package peer
 //@   requires [have]     typeis_[protocol.Have](m) ==> int(as_[protocol.Have](m).Index) < NP(peer)
 //@   requires [ext0]     typeis_[protocol.Extended0](m) && peer.proxy != "" ==> as_[protocol.Extended0](m).Version == "" && as_[protocol.Extended0](m).Port == 0
 //@   requires [port]     typeis_[protocol.Port](m) ==> peer.proxy == ""
+//@   requires [piece]    typeis_[protocol.Piece](m) ==> peer.amUnchoking != 0 && PieceOK(peer, as_[protocol.Piece](m).Index, as_[protocol.Piece](m).Begin, as_[protocol.Piece](m).Data)
 //@   modifies peer.writeTime
-//@   props    C11 C18
+//@   props    C11 C16 C18
 
 // PG: the piece store the peer looks at has a consistent geometry.
 //@ spec PG(peer *Peer) bool
@@ -142,11 +154,70 @@ package peer
 //@     invariant [depth] NSent(peer) <= max(old(NSent(peer)), max(2, peer.reqQ))
 //@   props    C11
 
-// handleMessage: PARTIAL check (C18) -- the DHT is only pinged for a torrent
-// without a proxy (the DHT socket bypasses the proxy).
+// Assumed (package-local) contract of slices.Delete AS USED ON THE UPLOAD QUEUE
+// (handleMessage's other use, on the PEX list, gets the same length equation;
+// the element clauses are only meaningful for []Requested): the result keeps,
+// in order, the elements outside [i, j).
+//@ extern slices.Delete
+//@   sig func(s []Requested, i int, j int) (r []Requested)
+//@   requires 0 <= i && i <= j && j <= len(s)
+//@   modifies s[_]
+//@   noalloc
+//@   ensures  len(r) == len(s) - (j - i)
+//@   ensures  forall k int :: 0 <= k && k < i ==> r[k].Length == old(s[k].Length)
+//@   ensures  forall k int :: i <= k && k < len(r) ==> r[k].Length == old(s[k+(j-i)].Length)
+
+// handleMessage: PARTIAL check -- (C18) the DHT is only pinged for a torrent
+// without a proxy (the DHT socket bypasses the proxy); (C16) every upload
+// request it accepts is short (ReqOK kept, established for scheduleUpload/unchoke).
 //@ func handleMessage
 //@   requires peer != nil
+//@   requires [reqok] ReqOK(peer)
 //@   modifies *
 //@   assertcall [noping] Ping :: peer.proxy == ""
-//@   focus    assert:noping
-//@   props    C18
+//@   focus    assert:noping, pre:peer.scheduleUpload.reqok, pre:peer.unchoke.reqok
+//@   props    C18 C16
+
+// ---- Upload and choking discipline (C16) ----
+//@ func reject
+//@   requires peer != nil
+//@   modifies peer.writeTime
+//@ func (*Peer).startStopUpload
+//@   trusted
+//@   requires peer != nil
+//@ func (*Peer).active
+//@   trusted
+//@   requires peer != nil
+//@ func NumUnchoking
+//@   trusted
+
+// scheduleUpload: a Piece is written only to a peer we are unchoking (write's
+// precondition), for the HEAD request, which leaves the queue exactly when it
+// is answered or rejected (and returns to the head on congestion); the payload
+// is the verified content of the requested range (PieceOK, from ReadAt's
+// contract); the reply buffer is bounded (ReqOK).
+//@ func scheduleUpload
+//@   requires peer != nil && PG(peer) && peer.Log != nil
+//@   assume   peer.Pieces.PieceSize() <= 1<<30
+//@   requires [reqok] ReqOK(peer)
+//@   modifies *
+//@   ensures  [reqok] ReqOK(peer)
+//@   ensures  [queue] len(peer.requested) <= old(len(peer.requested))
+//@   ensures  [served] len(peer.requested) >= old(len(peer.requested)) - 1
+//@   props    C16
+
+// unchoke: the flag and the global count move together (Ghost_delta is what
+// this call adds to the shared atomic counter numUnchoking), an
+// uninterested peer is never unchoked, choking empties the upload queue.
+//@ func unchoke
+//@   requires peer != nil && peer.Log != nil && peer.amUnchoking <= 1
+//@   requires [reqok] ReqOK(peer)
+//@   ghostvar Ghost_delta int
+//@   atcall   AddInt32 :: true :: Ghost_delta = int(delta)
+//@   modifies *
+//@   ensures  [reqok]  ReqOK(peer)
+//@   ensures  [count]  Ghost_delta == int(peer.amUnchoking) - old(int(peer.amUnchoking))
+//@   ensures  [flag]   peer.amUnchoking == 0 || peer.amUnchoking == 1 || peer.amUnchoking == old(peer.amUnchoking)
+//@   ensures  [uninterested] old(peer.interested) == 0 && old(peer.amUnchoking) == 0 ==> peer.amUnchoking == 0
+//@   ensures  [choked] $r0 == nil && old(peer.amUnchoking) != 0 && peer.amUnchoking == 0 ==> len(peer.requested) == 0
+//@   props    C16
